@@ -665,7 +665,13 @@ func (e *Env) evalCall(x *Call) *Val {
 			dv := mkVal("("+dec+" "+v+")", tr.u.sortOf(f.typ), f.typ)
 			conds := []string{not(eq(v, "jNull")), "(" + dok + " " + v + ")", eq("("+enc+" "+dv.E()+")", v)}
 			if !req[f.name] || x.Fn == "nfKindAll" {
-				conds = append(conds, not((&fctx{tr: tr}).tr.emptyOfState(e.st, dv, f.typ)))
+				if _, isMap := f.typ.Underlying().(*types.Map); isMap {
+					// the emptiness of a decoded map is a property of the JSON object it was decoded from
+					tr.u.decl("specfn:jEmptyObj", "(declare-fun jEmptyObj (JV) Bool)")
+					conds = append(conds, not("(jEmptyObj "+v+")"))
+				} else {
+					conds = append(conds, not(tr.emptyOfState(e.st, dv, f.typ)))
+				}
 			}
 			cs = append(cs, implies("(> (oCnt "+j.E()+" "+k+") 0)", and(conds...)))
 		}
